@@ -38,6 +38,13 @@ func vpSmallPrime(name string) *big.Int {
 func vpBuildHistory(n int) *vpHistory {
 	h := &vpHistory{}
 	h.pk, h.sk = vpKeys(0, 1, 1024, true)
+	if vpParam("keycounters", 0) == 1 {
+		// the issuer's key is key number 3 rather than 0 (copies: natively the key objects are shared)
+		ctr := uint(3)
+		pk2, sk2 := *h.pk, *h.sk
+		pk2.Counter, sk2.Counter = ctr, ctr
+		h.pk, h.sk = &pk2, &sk2
+	}
 	upd, err := NewAccumulator(h.sk)
 	vpAssume(err == nil)
 	acc, err := upd.SignedAccumulator.UnmarshalVerify(h.pk)
@@ -169,5 +176,63 @@ func vpC09_O5() {
 	vpAssert("the witness still verifies against the accumulator it carries", wit.Verify(h.pk) == nil && verify(wit.U, wit.E, cur, h.pk))
 	if err != nil || i1 != w {
 		vpAssert("an event-less update for another index changes nothing", wit.U == oldU && wit.SignedAccumulator == oldSacc)
+	}
+}
+
+func init() {
+	vpHarnesses["vpC09_O6"] = vpC09_O6
+}
+
+// C09-O6: batching through Prepend. The holder's update message carries the
+// events i0..n; the older events j0..i0-1 arrive later as an event list - in
+// memory or over the wire (decoded by uncompress, with or without the
+// ComputeProduct option) - and are prepended. The one extended update object is
+// then applied to a witness at any index (revoked at some event or never) and to
+// a second, never revoked witness at any index: a non-revoked witness behind the
+// message ends valid against the newest accumulator, a revoked one is reported
+// as revoked, a failed update leaves the witness as it was.
+func vpC09_O6() {
+	n := vpParam("nevents", 3)
+	h := vpBuildHistory(n)
+	i0 := 1 + vpChoose("i0", n) // 1..n
+	j0 := vpChoose("j0", n)
+	vpAssume(j0 < i0)
+	upd := h.update(i0, n)
+	evs := make([]*Event, 0, n+1)
+	for j := j0; j < i0; j++ {
+		evs = append(evs, vpCopyEvent(h.events[j]))
+	}
+	el := NewEventList(evs...)
+	if vpBool("transported") {
+		el = &EventList{ComputeProduct: vpBool("computeProduct")}
+		el.uncompress(NewEventList(evs...).compress())
+	}
+	vpAssert("older events of the issuer's chain can be prepended", upd.Prepend(el) == nil)
+	w := vpChoose("w", n+1)
+	revokedAt := vpChoose("revokedAt", n+1) // 0: never
+	vpAssume(revokedAt == 0 || revokedAt > w)
+	wit := h.witness("E", w, revokedAt)
+	w2 := vpChoose("w2", n+1)
+	wit2 := h.witness("E2", w2, 0)
+	vpAssume(wit.E.Cmp(wit2.E) != 0)
+	for round, x := range []struct {
+		wit       *Witness
+		at        int
+		revokedAt int
+	}{{wit, w, revokedAt}, {wit2, w2, 0}} {
+		oldU, oldSacc := x.wit.U, x.wit.SignedAccumulator
+		err := x.wit.Update(h.pk, upd)
+		covered := x.at+1 >= j0 // the extended message starts at or before the witness' next event
+		if x.at == n {
+			vpAssert("a witness that is up to date stays valid", err == nil && vpWitnessValidAgainst(x.wit, h.accs[n], h.pk))
+		} else if !covered {
+			vpAssert("a failed update leaves the witness as it was", err != nil && x.wit.U == oldU && x.wit.SignedAccumulator == oldSacc)
+		} else if x.revokedAt != 0 {
+			vpAssert("a revoked witness is reported as revoked by the extended update", err == ErrorRevoked)
+			vpAssert("a failed update leaves the witness as it was", x.wit.U == oldU && x.wit.SignedAccumulator == oldSacc)
+		} else {
+			vpAssert("a non-revoked witness follows the extended update to the newest accumulator", err == nil && vpWitnessValidAgainst(x.wit, h.accs[n], h.pk))
+		}
+		_ = round
 	}
 }
